@@ -367,7 +367,7 @@ tl::expected<std::string, errors> url_pattern_init::process_hash(
   if (value.starts_with("#")) {
     value.remove_prefix(1);
   }
-  ADA_ASSERT_TRUE(!value.starts_with("#"));
+  // The value may still start with "#" ("##x" loses only one).
   // If type is "pattern" then return strippedValue.
   if (type == process_type::pattern) {
     return std::string(value);
